@@ -46,6 +46,9 @@ type world struct {
 	// Canon: the canonical spelling of each plugin source, known by rule from the generator (never asked
 	// of the library: the equivalence of the two spellings is what is being checked)
 	Canon map[string]string `json:"-"`
+	// Focus: a pipeline variable of which the step env holds a look-alike (same name in other letter
+	// case): a different variable, so this one is signed - a change of it must show in the payload
+	Focus string `json:"-"`
 }
 
 func (w world) sf() *signature.CommandStepWithInvariants {
@@ -58,7 +61,7 @@ func (w world) show() string {
 }
 
 func (w world) clone() world {
-	return world{Step: sgen.CopyStep(w.Step), Penv: sgen.CopyStrMap(w.Penv), Repo: w.Repo, Canon: w.Canon}
+	return world{Step: sgen.CopyStep(w.Step), Penv: sgen.CopyStrMap(w.Penv), Repo: w.Repo, Canon: w.Canon, Focus: w.Focus}
 }
 
 func signTap(ctx context.Context, kp keys.Pair, w world) (*pipeline.Signature, []byte, error) {
@@ -646,6 +649,9 @@ var differs = []differ{
 		if !ok {
 			return false
 		}
+		if _, has := w.Penv[w.Focus]; has && w.Focus != "" {
+			k = w.Focus
+		}
 		if _, shadowed := w.Step.Env[k]; shadowed {
 			return false
 		}
@@ -753,6 +759,28 @@ func TestPropPayload(t *testing.T) {
 		g := sgen.New(t, sgen.Opts{BigMaps: rapid.IntRange(0, 2).Draw(t, "big") == 0})
 		step, canonOf := g.Step()
 		a := world{Step: step, Penv: g.EnvMap("penv", 4), Repo: g.RepoURL(), Canon: canonOf}
+		if len(a.Penv) > 0 && rapid.IntRange(0, 5).Draw(t, "casetwin") == 0 {
+			ks := make([]string, 0, len(a.Penv))
+			for k := range a.Penv {
+				ks = append(ks, k)
+			}
+			sort.Strings(ks)
+			n := rapid.SampledFrom(ks).Draw(t, "twinof")
+			twin := strings.ToLower(n)
+			if twin == n {
+				twin = strings.ToUpper(n)
+			}
+			_, inP := a.Penv[twin]
+			_, inS := a.Step.Env[n]
+			if twin != n && !inP && !inS {
+				if a.Step.Env == nil {
+					a.Step.Env = map[string]string{}
+				}
+				a.Step.Env[twin] = "the step's own " + twin
+				a.Focus = n
+				rec.Class("step-env-holds-a-case-twin-of-a-pipeline-variable")
+			}
+		}
 		kp := pool[rapid.IntRange(0, 1).Draw(t, "fast")]
 		if rapid.IntRange(0, 5).Draw(t, "anykey") == 0 {
 			kp = rapid.SampledFrom(pool).Draw(t, "key")
@@ -814,7 +842,13 @@ func TestPropPayload(t *testing.T) {
 		} else {
 			b = a.clone()
 			order := rapid.Permutation(seq(len(differs))).Draw(t, "dorder")
-			if a.Step.Matrix != nil && rapid.IntRange(0, 2).Draw(t, "matrixfirst") == 0 {
+			if a.Focus != "" && rapid.Bool().Draw(t, "focusfirst") {
+				for j, i := range order {
+					if differs[i].name == "pipeline-env-value-change" {
+						order[0], order[j] = order[j], order[0]
+					}
+				}
+			} else if a.Step.Matrix != nil && rapid.IntRange(0, 2).Draw(t, "matrixfirst") == 0 {
 				// one step in three that has a matrix gets a difference inside the matrix (the catalogue is
 				// long, and most of its entries apply to every step)
 				var first, rest []int
